@@ -194,3 +194,23 @@ def norm_msg(e: BaseException, n: int = 48) -> str:
 def load_json(path: str) -> t.Any:
     with open(path, "r", encoding="utf-8") as fh:
         return json.load(fh)
+
+
+def call_with_headroom(h: int, fn):
+    """Call fn() from a stack position that leaves about h Python frames before the interpreter's recursion limit (an
+    application calling the library from deep inside its own recursion)."""
+    import sys
+
+    d = 0
+    f = sys._getframe()
+    while f is not None:
+        d += 1
+        f = f.f_back
+    n = sys.getrecursionlimit() - d - h - 2
+
+    def rec(k):
+        if k <= 0:
+            return fn()
+        return rec(k - 1)
+
+    return rec(n)
